@@ -40,7 +40,8 @@ def build(scene, atmosphere_inside=False):
         # surface first): values are taken by position
         import pandas as pd
         n = len(scene["thickness"])
-        idx = list(range(n - 1, -1, -1)) if scene["series_labels"] == "reversed" else [10 * (i + 1) for i in range(n)]
+        idx = (list(scene["series_labels"]) if isinstance(scene["series_labels"], (list, tuple)) else
+               list(range(n - 1, -1, -1)) if scene["series_labels"] == "reversed" else [10 * (i + 1) for i in range(n)])
         per_layer = {k: pd.Series(v, index=idx) for k, v in per_layer.items()}
         kw = {k: (pd.Series(v, index=idx) if isinstance(v, list) and len(v) == n else v) for k, v in kw.items()}
     sp = make_snowpack(thickness=per_layer["thickness"], microstructure_model=scene.get("microstructure", "exponential"),
